@@ -80,6 +80,8 @@ pub enum StopReason {
     PanicUnwindAtSyncPoint,
     /// strict replay could not follow the recorded trace
     ReplayDiverged,
+    /// the main thread returned: the process ends, whatever other threads were doing
+    MainReturned,
     /// every task that could still run waits for ever (condition variable, park, recv with no
     /// timeout) and nobody is left to wake it
     Deadlock,
@@ -305,6 +307,22 @@ pub fn wait_threads_exit() {
         }
         shuttle::thread::yield_now();
     }
+}
+
+/// Like `wait_threads_exit`, for the threads registered from index `first` on (the ones an
+/// earlier part of the scenario left behind are not waited for).
+pub fn wait_threads_exit_since(first: usize) {
+    loop {
+        let (live, stopped) = with(|st| (st.threads.iter().skip(first).filter(|t| !t.exited).count(), st.stop.is_some()));
+        if live == 0 || stopped {
+            return;
+        }
+        shuttle::thread::yield_now();
+    }
+}
+
+pub fn threads_registered() -> usize {
+    with(|st| st.threads.len())
 }
 
 /// Called by the interposed write(2) of the harness binary for fd 1 on a thread that runs a
